@@ -14,7 +14,7 @@ from props import _util
 from props import c05
 
 ID = 'C14'
-LEAN_TARGETS = ['TexSoupProofs.Properties.C14', 'TexSoupProofs.Properties.C14Grammar']
+LEAN_TARGETS = ['TexSoupProofs.Properties.C14', 'TexSoupProofs.Properties.C14Grammar', 'TexSoupProofs.Properties.AllInputs']
 THEOREMS = ['TexSoup.C14.' + n for n in (
     'rename_splice_cmd', 'rename_splice_env', 'setString_splice', 'setArgs_splice', 'node_edit_preserves_others',
     'rename_preserves_below', 'rename_search', 'rename_count')] + ['TexSoup.C14G.' + n for n in (
@@ -29,7 +29,10 @@ THEOREMS = ['TexSoup.C14.' + n for n in (
     'TexSoup.Gram.WFD_setStr', 'TexSoup.Gram.treeD_setStr', 'TexSoup.Gram.separated_squeeze_setStr',
     'TexSoup.SVar.separated', 'TexSoup.updAt_root_mapSel'] + ['TexSoup.C14G.' + n for n in (
     'set_args_reparse_general', 'set_args_reparse_edit', 'set_args_command_reparse',
-    'set_args_environment_reparse', 'interleaved_args_not_read_back')] + ['TexSoup.Gram.treeD_setArgs']
+    'set_args_environment_reparse', 'interleaved_args_not_read_back')] + ['TexSoup.Gram.treeD_setArgs'] + [
+    'TexSoup.C14.rename_command_reparse_all', 'TexSoup.C14.rename_environment_reparse_all',
+    'TexSoup.C14.set_string_command_reparse_all', 'TexSoup.C14.set_string_environment_reparse_all',
+    'TexSoup.AllInputs.StrictInput.doc', 'TexSoup.AllInputs.strictInput_of_checks', 'TexSoup.C02.parse_sound']
 PARTIAL = ['"re-parsing the new text yields a tree that shows the same change": PROVED for renaming a command or an '
            'environment of a document of the grammar (C14G.rename_command_reparse_of_source / '
            'rename_environment_reparse_of_source, both tolerance modes: the text of applyEdit (treeD d) (.rename p new) parses '
@@ -39,6 +42,15 @@ PARTIAL = ['"re-parsing the new text yields a tree that shows the same change": 
            'neither end/begin, same signature, both or neither special) and new is no sizing prefix, resp. environment names '
            'with the same role (envRole: new without surrounding blanks, both or neither math environments, neither in the skip '
            'list; old starts with a letter, new can stand as one text token)',
+           'the rename and the node.string clauses hold for EVERY strictly parsing representable input, not only for '
+           'documents written in the grammar (C14.rename_command_reparse_all / rename_environment_reparse_all / '
+           'set_string_command_reparse_all / set_string_environment_reparse_all in Properties/AllInputs.lean, via the '
+           'exhaustiveness theorem C02.parse_sound): s parses strictly to es (AllInputs.StrictInput: no NUL/DEL, plain user skip '
+           'names, `{name}` groups of one token written plainly after \\begin, no backslash at the very end, Gram.repL es: no '
+           'made-up arguments, fixed signatures as declared), no command name is a bare sizing prefix, and the conditions on '
+           'the node and the names as above, now stated on es itself; the text of applyEdit es (.rename p new) resp. '
+           '(.setString p x) parses in both tolerance modes to a tree of the same shape resp. the same tree up to positions, and '
+           'the same text. node.args is not lifted: its hypotheses speak about the re-argumented grammar document',
            'the same clause is PROVED for node.string = s on a single-argument command and on a text-only environment '
            '(C14G.set_string_command_reparse_of_source / set_string_environment_reparse_of_source, both tolerance modes: the '
            'text of applyEdit (treeD d) (.setString p s) parses to a tree that is equal up to positions (bareL: the assigned '
